@@ -5,7 +5,7 @@
   The same simulation as `Lemmas/NameBlindMachine.lean`, for the machine whose goal lists carry cut barriers and end markers:
   a renaming touches the terms only, so it commutes with everything the cut does — marking the end markers (`markCut`),
   cutting the stack back to a height (`truncate`), the heights themselves (`mapCFs_length`).  Fragment: calls with atom
-  functors, `!`, `,`, `;`, `not`, `time`; no other built-in predicate and no function term.
+  functors, `!`, `fail`, `nl`, `unify`, `,`, `;`, `not`, `time`; no other built-in predicate and no function term.
 -/
 import SuironVerif.Lemmas.NameBlindKB
 import SuironVerif.Spec.GroupMachine
@@ -227,31 +227,43 @@ theorem cstep_sim (fo : FloatOps) {kb kb' : KB} (hk : KBRel kb kb') : ∀ {a b :
   | @bipOk name args b k σ σ' S c o f txt hne hrun =>
     intro ν hinj hg
     simp only [goodCFs, goodCF] at hg
-    have := (goodKc_cons.mp hg.1.1).1
-    cases args with
-    | none => simp only [goodCG, goodG, beq_iff_eq] at this; exact absurd this hne
-    | some as => simp [goodCG, goodG] at this
+    obtain ⟨⟨hgk, hgs⟩, hgS⟩ := hg
+    obtain ⟨hb, hk'⟩ := goodKc_cons.mp hgk
+    simp only [goodCG, goodG, Bool.and_eq_true] at hb
+    have hname : blindName name = true := blind_of_allowed hb.1 hne
+    obtain ⟨e, g⟩ := runBip_blind fo ν hinj c f name args σ hname hb.2 hgs
+    rw [hrun] at e
+    refine ⟨ν, hinj, fun _ _ => rfl, ?_, ?_, Nat.le_refl _⟩
+    · have hm : mapG ν (.bip name args) = .bip name (mapArgs ν args) := by cases args <;> rfl
+      simp only [mapCC, mapCFs, mapCF, mapKc, List.map_cons, mapCG, hm]
+      exact CStep.bipOk hne e
+    · simp only [goodCFs, goodCF]
+      exact ⟨⟨hk', g σ' txt hrun⟩, hgS⟩
   | @bipFail name args b k σ S c o f txt hne hrun =>
     intro ν hinj hg
     simp only [goodCFs, goodCF] at hg
-    have := (goodKc_cons.mp hg.1.1).1
-    cases args with
-    | none => simp only [goodCG, goodG, beq_iff_eq] at this; exact absurd this hne
-    | some as => simp [goodCG, goodG] at this
+    obtain ⟨⟨hgk, hgs⟩, hgS⟩ := hg
+    obtain ⟨hb, _⟩ := goodKc_cons.mp hgk
+    simp only [goodCG, goodG, Bool.and_eq_true] at hb
+    have hname : blindName name = true := blind_of_allowed hb.1 hne
+    obtain ⟨e, _⟩ := runBip_blind fo ν hinj c f name args σ hname hb.2 hgs
+    rw [hrun] at e
+    refine ⟨ν, hinj, fun _ _ => rfl, ?_, hgS, Nat.le_refl _⟩
+    have hm : mapG ν (.bip name args) = .bip name (mapArgs ν args) := by cases args <;> rfl
+    simp only [mapCC, mapCFs, mapCF, mapKc, List.map_cons, mapCG, hm]
+    exact CStep.bipFail hne e
   | @cut args b k σ S c o =>
     intro ν hinj hg
     simp only [goodCFs, goodCF] at hg
     obtain ⟨⟨hgk, hgs⟩, hgS⟩ := hg
     obtain ⟨hbip, hk'⟩ := goodKc_cons.mp hgk
     refine ⟨ν, hinj, fun _ _ => rfl, ?_, ?_, Nat.le_refl _⟩
-    · cases args with
-      | none =>
-        simp only [mapCC, mapCFs, mapCF, mapKc, List.map_cons, mapCG, mapG, mapCFs_truncate]
-        have := mapKc_markCut ν k
-        unfold mapKc at this
-        rw [this]
-        exact CStep.cut
-      | some as => simp [goodCG, goodG] at hbip
+    · have hm : mapG ν (.bip "!" args) = .bip "!" (mapArgs ν args) := by cases args <;> rfl
+      simp only [mapCC, mapCFs, mapCF, mapKc, List.map_cons, mapCG, hm, mapCFs_truncate]
+      have h2 := mapKc_markCut ν k
+      unfold mapKc at h2
+      rw [h2]
+      exact CStep.cut
     · simp only [goodCFs, goodCF]
       exact ⟨⟨goodKc_markCut k hk', hgs⟩, goodCFs_truncate S b hgS⟩
   | @conj gs b k σ S c o =>
